@@ -220,11 +220,14 @@ class Fam:
     def add(self, stream, calls, cuts=(), timeouts=(), end="eof", fireCont=False, skipUtf8=False,
             max_calls=None, via_connect=False):
         self.n += 1
+        # configuration beyond the receive properties' own flags: trace logging on (every received frame is
+        # re-formatted for the log) and the lock-free single-thread configuration - neither may change a result
+        extra = {"trace": self.n % 5 == 0, "nolock": self.n % 7 == 0}
         nfr = len(wire_frames_guess(stream))
         self.out.append(dict(tid="%s%d" % (self.prefix, self.n), stream=bytes(stream), calls=[list(c) for c in calls],
                              cuts=cuts if cuts == "every" else sorted(cuts), timeouts=sorted(timeouts), end=end,
                              fireCont=fireCont, skipUtf8=skipUtf8,
-                             max_calls=max_calls or (nfr + len(timeouts) + 4), via_connect=via_connect))
+                             max_calls=max_calls or (nfr + len(timeouts) + 4), via_connect=via_connect, **extra))
 
 
 def wire_frames_guess(stream):
@@ -293,6 +296,12 @@ def fam_decode(rng, tier):
                 follow = wire.sframe(T, b"next")
                 for cuts in ((), header_boundaries([fr, follow])):
                     f.add(fr + follow, [rng.choice(ALL_APIS)], cuts=cuts, max_calls=4)
+                if n < 60000:
+                    # the read is interrupted after the first two header bytes / inside the extended length / the key:
+                    # the retried call must decode the same frame
+                    hl = len(fr) - n
+                    for p in range(1, hl + 1):
+                        f.add(fr + follow, [rng.choice(ALL_APIS)], cuts=tuple(range(1, hl + 2)), timeouts=[p], max_calls=5)
     return f.out
 
 
